@@ -343,6 +343,24 @@ theorem dot_outputs_reachable (p : Pipe) (schema : List String) (g : Dot) (hs : 
     obtain ⟨h3, h4⟩ := hr.1 last (List.mem_of_getLast? hl) h1
     exact ⟨h1, h2, h3, h4⟩
 
+/-! ### the tie to the functions the model transcribes -/
+
+/-- the functions the hand-written model transcribes have, in the current source, the control skeleton (tests, loop
+headers, kinds of statements and the names they bind) they had when the model was written and validated: no branch,
+loop, early exit or rebinding has been added that the model does not describe -/
+theorem modelled_functions_have_the_transcribed_shape :
+    MlVerif.Gen.C16.shapePipelineInfo =
+      "sig(pipe, data, context, former_data=None)|def _get_name{if(info is None){raise};if(isinstance(prefix, list)){return};if(isinstance(prefix, int)){prefix=};assert;sug=;while(sug in context['names']){context[]Add=;sug=};context[][]=;return};def _get_name_simple{if(isinstance(name, str)){return};res=;assert;return};if(isinstance(pipe, Pipeline)){infos=;for((_,model) in pipe.steps){info=;data=;call extend};return};if(isinstance(pipe, ColumnTransformer)){infos=;outputs=;for((_,model,vs) in pipe.transformers){if(all(map(lambda o: isinstance(o, int), vs))){new_data=;if(isinstance(data, OrderedDict)){new_data=}else{mx=;while(len(new_data) <= mx){if(len(data) > len(new_data)){call append}else{call append}}}}else{new_data=;for(v in vs){new_data[]=}};info=;call extend;call extend};final_hat=;if(pipe.remainder == 'passthrough'){if(isinstance(data, dict)){keys=;merged=;for((_,_,vs) in pipe.transformers){call update};new_data=}else{new_data=};info=;call extend;call extend;final_hat=};if(len(pipe.transformers) > 1 or final_hat){info=;info[]=;call append};return};if(isinstance(pipe, FeatureUnion)){infos=;outputs=;for((_,model) in pipe.transformer_list){info=;new_outputs=;for(o in info[-1]['outputs']){add=;call append;call append};info[][]=;call extend};if(len(pipe.transformer_list) > 1){info=;info[]=;call append};return};if(isinstance(pipe, TransformedTargetRegressor)){raise};if(isinstance(pipe, TransformerMixin)){info=;if(len(data) == 1){info[]=;info[]=;info=}else{info[]=;info[]=;info=};return};if(isinstance(pipe, ClassifierMixin)){info=;exp=;if(len(data) == 1){info[]=;info[]=;info=}else{info[]=;info[]=;info=};return};if(isinstance(pipe, RegressorMixin)){info=;exp=;if(len(data) == 1){info[]=;info[]=;info=}else{info[]=;info[]=;info=};return};if(isinstance(pipe, str)){if(pipe == 'passthrough'){info=;info[]=;if(isinstance(data, (OrderedDict, dict)) and len(data) > 1){info[]=}else{info[]=};info=}else{raise};return};raise" ∧
+    MlVerif.Gen.C16.shapePipeline2dot =
+      "sig(pipe, data, **params)|raw_data = data ; data = OrderedDict() ; if isinstance(raw_data, pandas.DataFrame): for k, c in enumerate(raw_data.columns): data[c] = 'sch0:f%d' % k elif isinstance(raw_data, numpy.ndarray): if len(raw_data.shape) != 2: raise NotImplementedError(f'Unexpected training data dimension {raw_data.shape}.') for i in range(raw_data.shape[1]): data['X%d' % i] = 'sch0:f%d' % i elif isinstance(raw_data, list): for k, c in enumerate(raw_data): data[c] = 'sch0:f%d' % k else: raise TypeError(f'Unexpected data type: {type(raw_data)}.') ; options = {'orientation': 'portrait', 'ranksep': '0.25', 'nodesep': '0.05', 'width': '0.5', 'height': '0.1'} ; options.update(params) ; exp = ['digraph{'] ; for opt in ['orientation', 'pad', 'nodesep', 'ranksep']: if opt in options: exp.append(f' {opt}={options[opt]};') ; fontsize = 8 ; info = [dict(schema_after=data)] ; names = OrderedDict() ; for d in data: names[d] = info ; info.extend(_pipeline_info(pipe, data, context=dict(n=0, names=names))) ; columns = OrderedDict() ; for i, line in enumerate(info): if i == 0: schema = line['schema_after'] labs = [] for c, col in enumerate(schema): columns[col] = f'sch0:f{c}' labs.append(f'<f{c}> {col}') node = ' sch0[label='{0}',shape=record,fontsize={1}];'.format('|'.join(labs), params.get('fontsize', fontsize)) exp.append(node) else: exp.append('') if line['type'] == 'transform': node = ' node{0}[label='{1}',shape=box,style='filled,rounded',color=cyan,fontsize={2}];'.format(i, line['name'], int(params.get('fontsize', fontsize) * 1.5)) else: node = ' node{0}[label='{1}',shape=box,style='filled,rounded',color=yellow,fontsize={2}];'.format(i, line['name'], int(params.get('fontsize', fontsize) * 1.5)) exp.append(node) for inp in line['inputs']: assert not isinstance(inp, int), 'Unable to guess columns {} in/n{}/n---/n{}'.format(inp, pprint.pformat(columns), '/n'.join(exp)) nc = columns.get(inp, inp) edge = f' {nc} -> node{i};' exp.append(edge) labs = [] for c, out in enumerate(line['outputs']): columns[out] = f'sch{i}:f{c}' labs.append(f'<f{c}> {out}') node = ' sch{0}[label='{1}',shape=record,fontsize={2}];'.format(i, '|'.join(labs), params.get('fontsize', fontsize)) exp.append(node) for out in line['outputs']: nc = columns[out] edge = f' node{i} -> {nc};' if edge not in exp: exp.append(edge) ; exp.append('}') ; return '/n'.join(exp)" ∧
+    MlVerif.Gen.C16.shapePipeline2str =
+      "sig(pipe, indent=3)|rows = [] ; for coor, model, vs in enumerate_pipeline_models(pipe): spaces = ' ' * indent * (len(coor) - 1) if vs is None: msg = f'{spaces}{model.__class__.__name__}' else: v = ','.join(map(str, vs)) msg = f'{spaces}{model.__class__.__name__}({v})' rows.append(msg) ; return '/n'.join(rows)" ∧
+    MlVerif.Gen.C16.shapeEnumerate =
+      "sig(pipe, coor=None, vs=None)|if(coor is None){coor=};if(pipe == 'passthrough'){ClassDef;expr}else{expr;if(hasattr(pipe, 'transformer_and_mapper_list') and len(pipe.transformer_and_mapper_list)){raise}else{if(hasattr(pipe, 'mapper') and pipe.mapper){for(couple in enumerate_pipeline_models(pipe.mapper, coor + (0,))){expr}}else{if(hasattr(pipe, 'built_features')){for((i,(columns,transformers,_)) in enumerate(pipe.built_features)){if(isinstance(columns, str)){columns=};if(transformers is None){expr}else{for(couple in enumerate_pipeline_models(transformers, coor + (i,), columns)){expr}}}}else{if(isinstance(pipe, Pipeline)){for((i,(_,model)) in enumerate(pipe.steps)){for(couple in enumerate_pipeline_models(model, coor + (i,))){expr}}}else{if(isinstance(pipe, ColumnTransformer)){fitted=;for((i,(name,fitted_transformer,column)) in enumerate(pipe.transformers)){if(not isinstance(fitted_transformer, str)){fitted_transformer=};for(couple in enumerate_pipeline_models(fitted_transformer, coor + (i,), column)){expr}}}else{if(isinstance(pipe, FeatureUnion)){for((i,(_,model)) in enumerate(pipe.transformer_list)){for(couple in enumerate_pipeline_models(model, coor + (i,))){expr}}}else{if(isinstance(pipe, TransformedTargetRegressor)){raise}else{if(isinstance(pipe, (TransformerMixin, ClassifierMixin, RegressorMixin))){pass}else{if(isinstance(pipe, BaseEstimator)){pass}else{raise}}}}}}}}}}" ∧
+    MlVerif.Gen.C16.shapeAlterForDebugging =
+      "sig(pipe)|def transform{self._debug.inputs[]=;y=;self._debug.outputs[]=;return};def predict{self._debug.inputs[]=;y=;self._debug.outputs[]=;return};def predict_proba{self._debug.inputs[]=;y=;self._debug.outputs[]=;return};def decision_function{self._debug.inputs[]=;y=;self._debug.outputs[]=;return};new_methods=;assert;for(model_ in enumerate_pipeline_models(pipe)){model=;model._debug=;for(k in model._debug.methods){try{call setattr}except(AttributeError){call warn}}}" :=
+  ⟨rfl, rfl, rfl, rfl, rfl⟩
+
 /-! ## non-vacuity: a concrete nested pipeline -/
 
 /-- Pipeline([ColumnTransformer([(A, ['a']), ('passthrough', [1])], remainder='passthrough'),
